@@ -87,6 +87,7 @@ func PromptReplyTrial(g, per int) *PromptResult {
 	done := make(chan struct{})
 	go func() { wg.Wait(); close(done) }()
 	idleSince, idleReads, lastReq := time.Time{}, -1, int64(-1)
+	progressAt, progressReq := time.Now(), int64(-1)
 	for {
 		select {
 		case <-done:
@@ -98,6 +99,21 @@ func PromptReplyTrial(g, per int) *PromptResult {
 		}
 		idle, reads := a.St.ReaderIdle()
 		req := atomic.LoadInt64(&res.Requests)
+		// no request completes any more although the reader is not waiting for
+		// input: reader and callers may be parked on the registry's lock for good
+		if req != progressReq {
+			progressAt, progressReq = time.Now(), req
+		} else if since := time.Since(progressAt); since > 10*time.Second {
+			if d := LockDeadlock("lib/go.(*fRegistryImpl)"); d != "" {
+				res.Bad = "registry lock deadlock: after " + strconv.FormatInt(req, 10) + " requests answered the instant they were written no request completes any more: " + d
+				res.Witness = map[string]interface{}{"goroutines": g, "requests_completed": req}
+				return res
+			}
+			if since > 150*time.Second {
+				res.Inconclusive = fmt.Sprintf("no request completed for %s after %d requests (callers have a 120 s budget) and no lock deadlock could be established from the goroutine dump", since.Round(time.Second), req)
+				return res
+			}
+		}
 		if !idle || reads != idleReads || req != lastReq {
 			idleSince, idleReads, lastReq = time.Now(), reads, req
 			if !idle {
